@@ -278,7 +278,8 @@ def _run(ctx):
     for k in skeys:
         shutil.rmtree(os.path.join(ex, "solo_" + k), ignore_errors=True)
     _cache.update(rounds=rounds, pool=pool, ex=ex, reuse=_reuse(ctx, rng, binary, ex), fout=_fout(ctx),
-                  solos=solos, solodig=solodig, shared=_shared(ctx, rng, binary, ex))
+                  solos=solos, solodig=solodig, shared=_shared(ctx, rng, binary, ex),
+                  ik=B.run_interp_groups(binary, ex, rng, concs=(1, 3, 8, 16) if ctx.thorough else (1, 3)))
     return _cache
 
 
@@ -354,6 +355,12 @@ def correspond(ctx):
         for x in execs:
             if x.died():
                 c.mismatches.append({"kind": "execution", "tag": x.tag, "what": "process did not finish normally", "rc": x.rc, "stderr": x.stderr[-600:]})
+    iks, ikr = r["ik"]
+    c.cases += len(iks) + len(ikr); c.nontrivial += len(iks) + len(ikr)
+    c.dist["interpretation_key_lines"] = len(iks); c.dist["interpretation_key_group_runs"] = len(ikr)
+    for e, _ in ikr:
+        if e.died():
+            c.mismatches.append({"kind": "execution", "tag": e.tag, "what": "process did not finish normally", "rc": e.rc, "stderr": e.stderr[-600:]})
     sh = r["shared"]
     c.cases += len(sh["runs"]) + 1 + len(r["solos"]); c.nontrivial += len(sh["runs"]) + len(r["solos"])
     for e, _ in sh["runs"]:
@@ -430,6 +437,9 @@ def oracle(ctx, search):
                                   replay="cd <copy of /repo/examples> (+ weather/odd of lib/props/batchlib.py make_odd_weather); batch A = the single line `%s resultfolder=A/l0`; "
                                          "batch B = " % pool[k] + " || ".join("%s resultfolder=B/l%d" % (pool[x], j) for j, x in enumerate(r0.contents)) +
                                          " ; hermes2go -module batch -concurrent 1 -batch <file>; compare A/l0 with B/l%d" % i))
+    # lines sharing input files and ids, differing in one interpretation key: each equal to its solo run
+    fails += B.interp_fails(Fail, *r["ik"])
+    compared += sum(len(e.contents) for e, _ in r["ik"][1])
     sh = r["shared"]
     if sh["solo"].died():
         fails.append(Fail(key="shared-folder:reference", what="solo reference of the shared-folder stage did not finish", stderr=sh["solo"].stderr[-500:]))
